@@ -4,6 +4,9 @@ comma-separated list, and line splitting.
 -/
 import BlueskyVerif.IO.JsonWriter
 
+-- simp sets name generated constants that happen not to be needed for the current source
+set_option linter.unusedSimpArgs false
+
 namespace BlueskyVerif.JsonWriter
 
 theorem FS.get_set (fs : FS) (p q c : String) :
